@@ -20,6 +20,7 @@ package quickfix
 //@ spec fval(m FieldMap, t Tag) []byte = m.tagLookup[t][0].value
 //@ spec fint(m FieldMap, t Tag) mathint = intval(m.tagLookup[t][0].value)
 //@ spec msgok(msg *Message) bool = msg != nil && mapsok(msg) && fmvals(msg.Header.FieldMap) && fmvals(msg.Body.FieldMap) && fmvals(msg.Trailer.FieldMap)
+//@ spec isappmsg(msg *Message) bool = fhas(msg.Header.FieldMap, 35) && !isadmin(fval(msg.Header.FieldMap, 35))
 //@ spec isadmin(m []byte) bool = len(m) == 1 && (m[0] == 48 || m[0] == 65 || m[0] == 49 || m[0] == 50 || m[0] == 51 || m[0] == 52 || m[0] == 53)
 
 //@ func isAdminMessageType [C01,C06,C08]
@@ -39,6 +40,8 @@ package quickfix
 // ---- the message store as the session sees it (ghost counters; implementations: C16) -----------------
 //@ ghost MessageStore.T int
 //@ ghost MessageStore.S int
+// number of resets/refreshes of the store so far: the only events that may move a counter backwards
+//@ ghost MessageStore.R int
 //@ iface MessageStore.NextTargetMsgSeqNum(recv)
 //@   pure
 //@   ensures result == recv.#T
@@ -68,10 +71,12 @@ package quickfix
 //@   ensures result == nil ==> recv.#S == wrap64(old(recv.#S) + 1)
 //@   ensures result != nil ==> recv.#S == old(recv.#S)
 //@ iface MessageStore.Reset(recv)
-//@   modifies recv.#S, recv.#T
+//@   modifies recv.#S, recv.#T, recv.#R
 //@   ensures result == nil ==> recv.#S == 1 && recv.#T == 1
+//@   ensures recv.#R == old(recv.#R) + 1
 //@ iface MessageStore.Refresh(recv)
-//@   modifies recv.#S, recv.#T
+//@   modifies recv.#S, recv.#T, recv.#R
+//@   ensures recv.#R == old(recv.#R) + 1
 //@ iface MessageStore.CreationTime(recv)
 //@   pure
 //@ iface MessageStore.Close(recv)
@@ -129,8 +134,12 @@ package quickfix
 //@ iface Validator.Validate(recv, msg)
 //@   pure
 //@   ensures (result == nil) <==> validok(recv, msg)
+// ghost: number of application messages handed over and accepted (FromApp returned nil)
+//@ ghost Application.n int
 //@ iface Application.FromApp(recv, message, sessionID)
-//@   pure
+//@   modifies recv.#n
+//@   ensures result == nil ==> recv.#n == old(recv.#n) + 1
+//@   ensures result != nil ==> recv.#n == old(recv.#n)
 //@ iface Application.FromAdmin(recv, message, sessionID)
 //@   pure
 //@ iface Application.OnLogon(recv, sessionID)
@@ -156,14 +165,16 @@ package quickfix
 //@   requires @gate fhas(msg.Header.FieldMap, 35) && !islogon(msg) ==> gate(s, msg) && (s.Validator == nil || validok(s.Validator, msg))
 //@   requires @inorder fhas(msg.Header.FieldMap, 35) && !isadmin(fval(msg.Header.FieldMap, 35)) ==> atexpected(s, msg)
 //@   ensures @notype !fhas(msg.Header.FieldMap, 35) ==> result != nil
-//@   pure
+//@   ensures @delivered s.application.#n == old(s.application.#n) + (result == nil && isappmsg(msg) ? 1 : 0)
+//@   modifies s.application.#n
 
 //@ func (s *session) verifyMsgAgainstAppImpl [C01,C06]
 //@   requires msgok(msg) && sessionok(s)
 //@   requires @gate fhas(msg.Header.FieldMap, 35) && !islogon(msg) ==> gate(s, msg)
 //@   requires @inorder fhas(msg.Header.FieldMap, 35) && !isadmin(fval(msg.Header.FieldMap, 35)) ==> atexpected(s, msg)
 //@   ensures @validated result == nil ==> (s.Validator == nil || validok(s.Validator, msg)) && fhas(msg.Header.FieldMap, 35)
-//@   pure
+//@   ensures @delivered s.application.#n == old(s.application.#n) + (result == nil && isappmsg(msg) ? 1 : 0)
+//@   modifies s.application.#n
 
 // verifySelect: the checks in order, then (optionally) validation and the callback; nil only through the gate
 //@ func (s *session) verifySelect [C01,C04,C06]
@@ -176,7 +187,8 @@ package quickfix
 //@   ensures @toohigh gate(s, msg) && checkTooHigh && seqok(msg) && (checkTooLow ==> fint(msg.Header.FieldMap, 34) >= s.store.#T) && fint(msg.Header.FieldMap, 34) > s.store.#T ==> result is targetTooHigh && unbox(result, targetTooHigh).ReceivedTarget == fint(msg.Header.FieldMap, 34) && unbox(result, targetTooHigh).ExpectedTarget == s.store.#T
 //@   ensures @nil result == nil ==> gate(s, msg) && (checkTooLow ==> seqok(msg) && fint(msg.Header.FieldMap, 34) >= s.store.#T) && (checkTooHigh ==> seqok(msg) && fint(msg.Header.FieldMap, 34) <= s.store.#T) && (checkAppImpl ==> (s.Validator == nil || validok(s.Validator, msg)) && fhas(msg.Header.FieldMap, 35))
 //@   ensures @store s.store.#T == old(s.store.#T) && s.store.#S == old(s.store.#S)
-//@   pure
+//@   ensures @delivered s.application.#n == old(s.application.#n) + (result == nil && checkAppImpl && isappmsg(msg) ? 1 : 0)
+//@   modifies s.application.#n
 
 //@ func (s *session) verify [C01,C06]
 //@   requires msgok(msg) && sessionok(s)
@@ -185,7 +197,8 @@ package quickfix
 //@   ensures @toolow gate(s, msg) && seqok(msg) && fint(msg.Header.FieldMap, 34) < s.store.#T ==> result is targetTooLow && unbox(result, targetTooLow).ReceivedTarget == fint(msg.Header.FieldMap, 34) && unbox(result, targetTooLow).ExpectedTarget == s.store.#T
 //@   ensures @toohigh gate(s, msg) && seqok(msg) && fint(msg.Header.FieldMap, 34) > s.store.#T ==> result is targetTooHigh && unbox(result, targetTooHigh).ReceivedTarget == fint(msg.Header.FieldMap, 34) && unbox(result, targetTooHigh).ExpectedTarget == s.store.#T
 //@   ensures @store s.store.#T == old(s.store.#T) && s.store.#S == old(s.store.#S)
-//@   pure
+//@   ensures @delivered s.application.#n == old(s.application.#n) + (result == nil && isappmsg(msg) ? 1 : 0)
+//@   modifies s.application.#n
 
 // ---- outbound callbacks: may edit the outbound message but keep it well-formed (assumption about user code) ----
 //@ iface Application.ToAdmin(recv, message, sessionID)
@@ -246,7 +259,8 @@ package quickfix
 //@   ensures @number err == nil && !s.sentReset ==> s.store.#S == wrap64(old(s.store.#S) + 1) && s.store.#T == old(s.store.#T)
 //@   ensures @noreset !old(s.sentReset) && s.sentReset ==> err != nil || (s.store.#S == 2 && s.store.#T == 1)
 //@   ensures @state s.State == old(s.State) && s.toSend == old(s.toSend) && s.messageOut == old(s.messageOut)
-//@   modifies s.sentReset, s.store.#S, s.store.#T, msg.Header.tags, heap E.quickfix.Tag, msg.Header.tagLookup[*], msg.Body.tags, msg.Body.tagLookup[*], msg.Trailer.tags, msg.Trailer.tagLookup[*], heap H.quickfix.TagValue.*, fresh E.uint8, fresh H.quickfix.FIXUTCTimestamp.*, fresh H.time.Time.*, fresh H.quickfix.messageRejectError.*, fresh P.quickfix.Tag, fresh P.quickfix.FIXInt, fresh P.quickfix.FIXBoolean, fresh H.bytes.Buffer.*
+//@   ensures @target (s.store.#T == old(s.store.#T) && s.store.#R == old(s.store.#R)) || s.store.#R > old(s.store.#R)
+//@   modifies s.sentReset, s.store.#S, s.store.#T, s.store.#R, msg.Header.tags, heap E.quickfix.Tag, msg.Header.tagLookup[*], msg.Body.tags, msg.Body.tagLookup[*], msg.Trailer.tags, msg.Trailer.tagLookup[*], heap H.quickfix.TagValue.*, fresh E.uint8, fresh H.quickfix.FIXUTCTimestamp.*, fresh H.time.Time.*, fresh H.quickfix.messageRejectError.*, fresh P.quickfix.Tag, fresh P.quickfix.FIXInt, fresh P.quickfix.FIXBoolean, fresh H.bytes.Buffer.*
 
 // ---- the send path ------------------------------------------------------------------------------------------
 // sendBytes is the only place that writes to the connection: never on a closed channel, never after disconnect
@@ -288,7 +302,8 @@ package quickfix
 //@   ensures @number result == nil && !s.sentReset ==> s.store.#S == wrap64(old(s.store.#S) + 1) && s.store.#T == old(s.store.#T)
 //@   ensures @state s.State == old(s.State) && s.messageOut == old(s.messageOut)
 //@   ensures @nowire sent(s.messageOut) == old(sent(s.messageOut))
-//@   modifies heap Gh.chan.sent, s.toSend, s.toSend[*], fresh E.sl.uint8, s.sentReset, s.store.#S, s.store.#T, msg.Header.tags, heap E.quickfix.Tag, msg.Header.tagLookup[*], msg.Body.tags, msg.Body.tagLookup[*], msg.Trailer.tags, msg.Trailer.tagLookup[*], heap H.quickfix.TagValue.*, fresh E.uint8, fresh H.quickfix.FIXUTCTimestamp.*, fresh H.time.Time.*, fresh H.quickfix.messageRejectError.*, fresh P.quickfix.Tag, fresh P.quickfix.FIXInt, fresh P.quickfix.FIXBoolean, fresh H.bytes.Buffer.*
+//@   ensures @target (s.store.#T == old(s.store.#T) && s.store.#R == old(s.store.#R)) || s.store.#R > old(s.store.#R)
+//@   modifies heap Gh.chan.sent, s.toSend, s.toSend[*], fresh E.sl.uint8, s.sentReset, s.store.#S, s.store.#T, s.store.#R, msg.Header.tags, heap E.quickfix.Tag, msg.Header.tagLookup[*], msg.Body.tags, msg.Body.tagLookup[*], msg.Trailer.tags, msg.Trailer.tagLookup[*], heap H.quickfix.TagValue.*, fresh E.uint8, fresh H.quickfix.FIXUTCTimestamp.*, fresh H.time.Time.*, fresh H.quickfix.messageRejectError.*, fresh P.quickfix.Tag, fresh P.quickfix.FIXInt, fresh P.quickfix.FIXBoolean, fresh H.bytes.Buffer.*
 
 //@ func (s *session) sendInReplyTo [C02,C07,C08]
 //@   requires @sess sessfull(s)
@@ -299,7 +314,8 @@ package quickfix
 //@   ensures @number result == nil && !s.sentReset ==> s.store.#S == wrap64(old(s.store.#S) + 1) && s.store.#T == old(s.store.#T)
 //@   ensures @state s.State == old(s.State) && s.messageOut == old(s.messageOut)
 //@   ensures @nowire (stnotlogged(s.State) || s.messageOut == nil || result != nil) ==> sent(s.messageOut) == old(sent(s.messageOut))
-//@   modifies heap Gh.chan.sent, s.toSend, s.toSend[*], fresh E.sl.uint8, s.sentReset, s.store.#S, s.store.#T, msg.Header.tags, heap E.quickfix.Tag, msg.Header.tagLookup[*], msg.Body.tags, msg.Body.tagLookup[*], msg.Trailer.tags, msg.Trailer.tagLookup[*], heap H.quickfix.TagValue.*, fresh E.uint8, fresh H.quickfix.FIXUTCTimestamp.*, fresh H.time.Time.*, fresh H.quickfix.messageRejectError.*, fresh P.quickfix.Tag, fresh P.quickfix.FIXInt, fresh P.quickfix.FIXBoolean, fresh H.bytes.Buffer.*
+//@   ensures @target (s.store.#T == old(s.store.#T) && s.store.#R == old(s.store.#R)) || s.store.#R > old(s.store.#R)
+//@   modifies heap Gh.chan.sent, s.toSend, s.toSend[*], fresh E.sl.uint8, s.sentReset, s.store.#S, s.store.#T, s.store.#R, msg.Header.tags, heap E.quickfix.Tag, msg.Header.tagLookup[*], msg.Body.tags, msg.Body.tagLookup[*], msg.Trailer.tags, msg.Trailer.tagLookup[*], heap H.quickfix.TagValue.*, fresh E.uint8, fresh H.quickfix.FIXUTCTimestamp.*, fresh H.time.Time.*, fresh H.quickfix.messageRejectError.*, fresh P.quickfix.Tag, fresh P.quickfix.FIXInt, fresh P.quickfix.FIXBoolean, fresh H.bytes.Buffer.*
 
 //@ func (s *session) send [C02,C07,C08]
 //@   requires sessfull(s) && msgsafe(msg)
@@ -307,7 +323,8 @@ package quickfix
 //@   ensures @number result == nil && !s.sentReset ==> s.store.#S == wrap64(old(s.store.#S) + 1) && s.store.#T == old(s.store.#T)
 //@   ensures @state s.State == old(s.State) && s.messageOut == old(s.messageOut)
 //@   ensures @nowire (stnotlogged(s.State) || s.messageOut == nil || result != nil) ==> sent(s.messageOut) == old(sent(s.messageOut))
-//@   modifies heap Gh.chan.sent, s.toSend, s.toSend[*], fresh E.sl.uint8, s.sentReset, s.store.#S, s.store.#T, msg.Header.tags, heap E.quickfix.Tag, msg.Header.tagLookup[*], msg.Body.tags, msg.Body.tagLookup[*], msg.Trailer.tags, msg.Trailer.tagLookup[*], heap H.quickfix.TagValue.*, fresh E.uint8, fresh H.quickfix.FIXUTCTimestamp.*, fresh H.time.Time.*, fresh H.quickfix.messageRejectError.*, fresh P.quickfix.Tag, fresh P.quickfix.FIXInt, fresh P.quickfix.FIXBoolean, fresh H.bytes.Buffer.*
+//@   ensures @target (s.store.#T == old(s.store.#T) && s.store.#R == old(s.store.#R)) || s.store.#R > old(s.store.#R)
+//@   modifies heap Gh.chan.sent, s.toSend, s.toSend[*], fresh E.sl.uint8, s.sentReset, s.store.#S, s.store.#T, s.store.#R, msg.Header.tags, heap E.quickfix.Tag, msg.Header.tagLookup[*], msg.Body.tags, msg.Body.tagLookup[*], msg.Trailer.tags, msg.Trailer.tagLookup[*], heap H.quickfix.TagValue.*, fresh E.uint8, fresh H.quickfix.FIXUTCTimestamp.*, fresh H.time.Time.*, fresh H.quickfix.messageRejectError.*, fresh P.quickfix.Tag, fresh P.quickfix.FIXInt, fresh P.quickfix.FIXBoolean, fresh H.bytes.Buffer.*
 
 //@ func (s *session) dropAndSendInReplyTo [C02,C07,C08]
 //@   requires @sess sessfull(s)
@@ -320,7 +337,8 @@ package quickfix
 //@   ensures @state s.State == old(s.State) && s.messageOut == old(s.messageOut)
 //@   ensures @nowire (s.messageOut == nil || result != nil) ==> sent(s.messageOut) == old(sent(s.messageOut))
 //@   ensures @one sent(s.messageOut) <= old(sent(s.messageOut)) + 1
-//@   modifies heap Gh.chan.sent, s.toSend, s.toSend[*], fresh E.sl.uint8, s.sentReset, s.store.#S, s.store.#T, msg.Header.tags, heap E.quickfix.Tag, msg.Header.tagLookup[*], msg.Body.tags, msg.Body.tagLookup[*], msg.Trailer.tags, msg.Trailer.tagLookup[*], heap H.quickfix.TagValue.*, fresh E.uint8, fresh H.quickfix.FIXUTCTimestamp.*, fresh H.time.Time.*, fresh H.quickfix.messageRejectError.*, fresh P.quickfix.Tag, fresh P.quickfix.FIXInt, fresh P.quickfix.FIXBoolean, fresh H.bytes.Buffer.*
+//@   ensures @target (s.store.#T == old(s.store.#T) && s.store.#R == old(s.store.#R)) || s.store.#R > old(s.store.#R)
+//@   modifies heap Gh.chan.sent, s.toSend, s.toSend[*], fresh E.sl.uint8, s.sentReset, s.store.#S, s.store.#T, s.store.#R, msg.Header.tags, heap E.quickfix.Tag, msg.Header.tagLookup[*], msg.Body.tags, msg.Body.tagLookup[*], msg.Trailer.tags, msg.Trailer.tagLookup[*], heap H.quickfix.TagValue.*, fresh E.uint8, fresh H.quickfix.FIXUTCTimestamp.*, fresh H.time.Time.*, fresh H.quickfix.messageRejectError.*, fresh P.quickfix.Tag, fresh P.quickfix.FIXInt, fresh P.quickfix.FIXBoolean, fresh H.bytes.Buffer.*
 
 //@ func (s *session) dropAndSend [C02,C07,C08]
 //@   requires sessfull(s) && msgsafe(msg)
@@ -330,7 +348,8 @@ package quickfix
 //@   ensures @state s.State == old(s.State) && s.messageOut == old(s.messageOut)
 //@   ensures @nowire (s.messageOut == nil || result != nil) ==> sent(s.messageOut) == old(sent(s.messageOut))
 //@   ensures @one sent(s.messageOut) <= old(sent(s.messageOut)) + 1
-//@   modifies heap Gh.chan.sent, s.toSend, s.toSend[*], fresh E.sl.uint8, s.sentReset, s.store.#S, s.store.#T, msg.Header.tags, heap E.quickfix.Tag, msg.Header.tagLookup[*], msg.Body.tags, msg.Body.tagLookup[*], msg.Trailer.tags, msg.Trailer.tagLookup[*], heap H.quickfix.TagValue.*, fresh E.uint8, fresh H.quickfix.FIXUTCTimestamp.*, fresh H.time.Time.*, fresh H.quickfix.messageRejectError.*, fresh P.quickfix.Tag, fresh P.quickfix.FIXInt, fresh P.quickfix.FIXBoolean, fresh H.bytes.Buffer.*
+//@   ensures @target (s.store.#T == old(s.store.#T) && s.store.#R == old(s.store.#R)) || s.store.#R > old(s.store.#R)
+//@   modifies heap Gh.chan.sent, s.toSend, s.toSend[*], fresh E.sl.uint8, s.sentReset, s.store.#S, s.store.#T, s.store.#R, msg.Header.tags, heap E.quickfix.Tag, msg.Header.tagLookup[*], msg.Body.tags, msg.Body.tagLookup[*], msg.Trailer.tags, msg.Trailer.tagLookup[*], heap H.quickfix.TagValue.*, fresh E.uint8, fresh H.quickfix.FIXUTCTimestamp.*, fresh H.time.Time.*, fresh H.quickfix.messageRejectError.*, fresh P.quickfix.Tag, fresh P.quickfix.FIXInt, fresh P.quickfix.FIXBoolean, fresh H.bytes.Buffer.*
 
 // dropAndReset: on success both counters are 1 and nothing is queued
 //@ func (s *session) dropAndReset [C03,C07]
@@ -338,7 +357,7 @@ package quickfix
 //@   ensures @reset result == nil ==> s.store.#S == 1 && s.store.#T == 1
 //@   ensures @queue len(s.toSend) == 0
 //@   ensures @state s.State == old(s.State) && s.messageOut == old(s.messageOut) && sessfull(s)
-//@   modifies s.toSend, s.store.#S, s.store.#T
+//@   modifies s.toSend, s.store.#S, s.store.#T, s.store.#R
 
 // ---- the state interface: every implementation in the package is checked against these (closed world) ---------
 // pendingTimeout wraps another state and answers what the wrapped state answers: nothing is said about it here
@@ -381,7 +400,8 @@ package quickfix
 //@   atcall send @end fhas(arg1.Body.FieldMap, 16) && fint(arg1.Body.FieldMap, 16) == (rrchunked(s, beginSeq, endSeq) ? rrchunkend(s, beginSeq) : (s.sessionID.BeginString < "FIX.4.2" ? 999999 : 0))
 //@   ensures @number err == nil && !s.sentReset ==> s.store.#S == wrap64(old(s.store.#S) + 1) && s.store.#T == old(s.store.#T)
 //@   ensures @state s.State == old(s.State) && s.messageOut == old(s.messageOut) && sessfull(s)
-//@   modifies heap Gh.chan.sent, s.toSend, s.toSend[*], fresh E.sl.uint8, s.sentReset, s.store.#S, s.store.#T, heap E.quickfix.Tag, heap H.quickfix.TagValue.*, fresh E.uint8, fresh H.quickfix.FIXUTCTimestamp.*, fresh H.time.Time.*, fresh H.quickfix.messageRejectError.*, fresh P.quickfix.Tag, fresh P.quickfix.FIXInt, fresh P.quickfix.FIXBoolean, fresh H.bytes.Buffer.*
+//@   ensures @target (s.store.#T == old(s.store.#T) && s.store.#R == old(s.store.#R)) || s.store.#R > old(s.store.#R)
+//@   modifies heap Gh.chan.sent, s.toSend, s.toSend[*], fresh E.sl.uint8, s.sentReset, s.store.#S, s.store.#T, s.store.#R, heap E.quickfix.Tag, heap H.quickfix.TagValue.*, fresh E.uint8, fresh H.quickfix.FIXUTCTimestamp.*, fresh H.time.Time.*, fresh H.quickfix.messageRejectError.*, fresh P.quickfix.Tag, fresh P.quickfix.FIXInt, fresh P.quickfix.FIXBoolean, fresh H.bytes.Buffer.*
 
 //@ func (s *session) doTargetTooHigh [C04]
 //@   requires sessfull(s)
@@ -391,7 +411,8 @@ package quickfix
 //@   ensures @chunk nextState.currentResendRangeEnd == (rrchunked(s, reject.ExpectedTarget, wrap64(reject.ReceivedTarget - 1)) ? rrchunkend(s, reject.ExpectedTarget) : 0)
 //@   ensures @number err == nil && !s.sentReset ==> s.store.#S == wrap64(old(s.store.#S) + 1) && s.store.#T == old(s.store.#T)
 //@   ensures @state s.State == old(s.State) && s.messageOut == old(s.messageOut) && sessfull(s)
-//@   modifies heap Gh.chan.sent, s.toSend, s.toSend[*], fresh E.sl.uint8, s.sentReset, s.store.#S, s.store.#T, heap E.quickfix.Tag, heap H.quickfix.TagValue.*, fresh E.uint8, fresh H.quickfix.FIXUTCTimestamp.*, fresh H.time.Time.*, fresh H.quickfix.messageRejectError.*, fresh P.quickfix.Tag, fresh P.quickfix.FIXInt, fresh P.quickfix.FIXBoolean, fresh H.bytes.Buffer.*
+//@   ensures @target (s.store.#T == old(s.store.#T) && s.store.#R == old(s.store.#R)) || s.store.#R > old(s.store.#R)
+//@   modifies heap Gh.chan.sent, s.toSend, s.toSend[*], fresh E.sl.uint8, s.sentReset, s.store.#S, s.store.#T, s.store.#R, heap E.quickfix.Tag, heap H.quickfix.TagValue.*, fresh E.uint8, fresh H.quickfix.FIXUTCTimestamp.*, fresh H.time.Time.*, fresh H.quickfix.messageRejectError.*, fresh P.quickfix.Tag, fresh P.quickfix.FIXInt, fresh P.quickfix.FIXBoolean, fresh H.bytes.Buffer.*
 
 // ---- rejects (C06) ---------------------------------------------------------------------------------------------
 //@ spec ispair(s Tag, d Tag) bool = (s == 49 && d == 56) || (s == 56 && d == 49) || (s == 50 && d == 57) || (s == 57 && d == 50) || (s == 142 && d == 143) || (s == 143 && d == 142) || (s == 115 && d == 128) || (s == 128 && d == 115) || (s == 116 && d == 129) || (s == 129 && d == 116) || (s == 144 && d == 145) || (s == 145 && d == 144)
@@ -444,6 +465,7 @@ package quickfix
 // No modifies clause: callers only rely on the postconditions (the frame proof of this long function costs minutes).
 //@ spec onebyte(d []byte, c int) bool = len(d) == 1 && d[0] == c
 //@ func (s *session) doReject [C06]
+//@   ensures @target (s.store.#T == old(s.store.#T) && s.store.#R == old(s.store.#R)) || s.store.#R > old(s.store.#R)
 //@   requires sessfull(s) && msgok(msg) && rej != nil
 //@   atcall SetField @reply msgsafe(reply)
 //@   atcall SetField @msg msgok(msg)
@@ -459,3 +481,46 @@ package quickfix
 //@   atcall sendInReplyTo @inreply arg2 == msg
 //@   ensures @number result == nil && !s.sentReset ==> s.store.#S == wrap64(old(s.store.#S) + 1) && s.store.#T == old(s.store.#T)
 //@   ensures @state s.State == old(s.State) && s.messageOut == old(s.messageOut) && sessfull(s)
+
+// ---- logout / logon messages -----------------------------------------------------------------------------------
+//@ func (s *session) buildLogout [C06,C08]
+//@   stepframes
+//@   requires s != nil
+//@   atcall SetField @wf msgsafe(logout)
+//@   atcall SetField @new fresh(logout) && fresh(logout.Header.tagLookup) && fresh(logout.Body.tagLookup) && fresh(logout.Trailer.tagLookup)
+//@   atcall SetField @entries forall t Tag :: fhas(logout.Header.FieldMap, t) ==> fresh(logout.Header.tagLookup[t])
+//@   atcall SetField @type fhas(logout.Header.FieldMap, 35) ==> onebyte(fval(logout.Header.FieldMap, 35), 53)
+//@   ensures @fresh result != nil && fresh(result) && msgsafe(result) && fresh(result.Header.tagLookup) && fresh(result.Body.tagLookup) && fresh(result.Trailer.tagLookup)
+//@   ensures @type fhas(result.Header.FieldMap, 35) && onebyte(fval(result.Header.FieldMap, 35), 53)
+//@   modifies fresh H.quickfix.Message.*, fresh H.quickfix.FieldMap.*, fresh H.quickfix.tagSort.*, fresh H.sync.RWMutex.*, fresh H.sync.Mutex.*, fresh MH.quickfix.Tag.quickfix.field, fresh H.time.Time.*, fresh E.uint8, fresh H.quickfix.TagValue.*, fresh E.quickfix.Tag
+
+//@ func (s *session) sendLogoutInReplyTo [C06,C08]
+//@   requires @sess sessfull(s)
+//@   requires @reply inReplyTo != nil ==> msgok(inReplyTo)
+//@   atcall sendInReplyTo @type fhas(arg1.Header.FieldMap, 35) && onebyte(fval(arg1.Header.FieldMap, 35), 53)
+//@   ensures @number result == nil && !s.sentReset ==> s.store.#S == wrap64(old(s.store.#S) + 1) && s.store.#T == old(s.store.#T)
+//@   ensures @state s.State == old(s.State) && s.messageOut == old(s.messageOut) && sessfull(s)
+//@   ensures @target (s.store.#T == old(s.store.#T) && s.store.#R == old(s.store.#R)) || s.store.#R > old(s.store.#R)
+
+//@ func (s *session) sendLogout [C06,C08]
+//@   requires @sess sessfull(s)
+//@   ensures @number result == nil && !s.sentReset ==> s.store.#S == wrap64(old(s.store.#S) + 1) && s.store.#T == old(s.store.#T)
+//@   ensures @state s.State == old(s.State) && s.messageOut == old(s.messageOut) && sessfull(s)
+//@   ensures @target (s.store.#T == old(s.store.#T) && s.store.#R == old(s.store.#R)) || s.store.#R > old(s.store.#R)
+
+//@ func (s *session) initiateLogoutInReplyTo [C06,C08]
+//@   requires @sess sessfull(s)
+//@   requires @reply inReplyTo != nil ==> msgok(inReplyTo)
+//@   ensures @number err == nil && !s.sentReset ==> s.store.#S == wrap64(old(s.store.#S) + 1) && s.store.#T == old(s.store.#T)
+//@   ensures @state s.State == old(s.State) && s.messageOut == old(s.messageOut) && sessfull(s)
+//@   ensures @target (s.store.#T == old(s.store.#T) && s.store.#R == old(s.store.#R)) || s.store.#R > old(s.store.#R)
+
+//@ func (s *session) initiateLogout [C06,C08]
+//@   requires @sess sessfull(s)
+//@   ensures @number err == nil && !s.sentReset ==> s.store.#S == wrap64(old(s.store.#S) + 1) && s.store.#T == old(s.store.#T)
+//@   ensures @state s.State == old(s.State) && s.messageOut == old(s.messageOut) && sessfull(s)
+//@   ensures @target (s.store.#T == old(s.store.#T) && s.store.#R == old(s.store.#R)) || s.store.#R > old(s.store.#R)
+
+//@ func (s *session) logError [C06]
+//@   requires s != nil && s.log != nil && err != nil
+//@   pure
